@@ -46,6 +46,12 @@ func init() {
 	generators["closewatchstop"] = genCloseWatchStop
 	generators["bucketreset"] = genBucketReset
 	generators["restartinrelease"] = genRestartInRelease
+	generators["lateloser"] = genLateLoser
+	generators["ordemotetwice"] = genOrDemoteTwice
+	generators["stalediag"] = genStaleDiag
+	generators["holddown"] = genHoldDown
+	generators["busypromote"] = genBusyPromote
+	generators["slowphases"] = genSlowPhases
 	generators["twoinflight"] = genTwoInFlight
 	generators["outage"] = genOutage
 	generators["slowdemote"] = genSlowDemote
@@ -531,7 +537,7 @@ func HostilePayload(r rng, p int, own, other string, ownTok string) string {
 	case 20:
 		return fmt.Sprintf(`{"id":%q,"token":"t","priority":-5}`, other)
 	case 21:
-		return fmt.Sprintf(`{"id":%q,"token":"t","priority":%s}`, other, r.pickS("1e30", "1e19", "9223372036854775807", "9223372036854775808", "18446744073709551616", "2.5", "1e1"))
+		return fmt.Sprintf(`{"id":%q,"token":"t","priority":%s}`, other, r.pickS("1e30", "1e19", "9223372036854775807", "9223372036854775808", "18446744073709551616", "2.5", "1e1", "-2000000000", "-9223372036854775808", "-9223372036854775807", "2000000000"))
 	case 23:
 		// a well-formed own record followed by something: the document as a whole is malformed
 		// (encoding/json.Unmarshal rejects it; a streaming decoder that stops after the first value does not)
@@ -2573,7 +2579,7 @@ func genBeat(r rng, k int, hs []time.Duration, tag string) *Spec {
 	if k%3 == 2 {
 		// instance ids are free text: ids that need escaping in JSON, ids that differ only in
 		// letter case or in surrounding blanks, an id that looks like a record
-		names := [][]string{{`node "a"`, `node 'a'`, `node a`}, {"Lead-1", "lead-1", "LEAD-1"}, {`a\b`, `a/b`, `a\\b`}, {"zürich-1", "zurich-1", "zu\u0308rich-1"}, {" x", "x", "x "}, {`{"id":"i9","token":"t"}`, "i9", `"i9"`}}[(k/3)%6]
+		names := [][]string{{`node "a"`, `node 'a'`, `node a`}, {"Lead-1", "lead-1", "LEAD-1"}, {`a\b`, `a/b`, `a\\b`}, {"zürich-1", "zurich-1", "zu\u0308rich-1"}, {" x", "x", "x "}, {`{"id":"i9","token":"t"}`, "i9", `"i9"`}, {"esc\x1b[1m", "nul\x00", "del\x7f"}}[(k/3)%7]
 		for i := range s.Insts {
 			s.Insts[i].Name = names[i]
 		}
@@ -2982,6 +2988,225 @@ func genRestartInRelease(r rng, k int) *Spec {
 		s.Actions = append(s.Actions, Action{After: 100 * ms, Kind: "start", Inst: "i1"})
 	}
 	s.Duration = 6 * h
+	s.Sample = sampleFor(h)
+	return s
+}
+
+// ---------------------------------------------------------------------------
+// lateloser: the leader shuts down gracefully; the follower hears of it twice (every watch
+// notification duplicated) and runs two acquisition rounds side by side. The first Create
+// wins - its answer is a little slow (below H/2); the other round's attempts are refused one
+// after the other, and its LAST attempt is on its way when the winner's answer arrives and
+// the term begins. Then that last attempt is refused too and the round gives up ("settle as
+// follower"): it gives up on its own account - the term that the other round began is none
+// of its business.
+// ---------------------------------------------------------------------------
+
+// LateLoserTotal is the size of the enumeration.
+func LateLoserTotal() int { return 2 * 3 }
+
+func genLateLoser(r rng, k int) *Spec {
+	idx := k % LateLoserTotal()
+	h := []time.Duration{2 * sec, 3 * sec}[idx%2]
+	idx /= 2
+	gap := []time.Duration{ms, 20 * ms, 100 * ms}[idx%3]
+	s := &Spec{TTL: 3 * h, Benign: true, NoPreempt: true, Tags: []string{"leftover", "lateloser"}}
+	s.Lat = Latency{Min: ms, Max: r.pickD(2*ms, 5*ms)}
+	s.Watch = WatchPolicy{DupP: 1}
+	s.Insts = mkInsts(2, 1, h)
+	s.Breaks = []BreakSpec{
+		{Name: "win", Client: "i1", Op: "Create", Nth: 1, Phase: "resp"},
+		{Name: "last", Client: "i1", Op: "Create", Nth: 5, Phase: "req"},
+	}
+	s.Actions = append(s.Actions, Action{At: 10 * ms, Kind: "start", Inst: "i0"}, Action{At: 300 * ms, Kind: "start", Inst: "i1"},
+		Action{At: 3 * sec, Kind: "arm", Break: "win"},
+		Action{Chain: true, Kind: "arm", Break: "last"},
+		Action{Chain: true, Kind: "stop", Inst: "i0", Stop: &StopVariant{DeleteKey: true, Wait: true, Timeout: 5 * sec}},
+		Action{After: ms, Kind: "waitbreak", Break: "win", D: 2 * sec},
+		Action{After: ms, Kind: "waitbreak", Break: "last", D: 900 * ms},
+		Action{After: ms, Kind: "release", Break: "win"},
+		Action{After: gap, Kind: "release", Break: "last"},
+	)
+	s.Duration = 6 * h
+	s.Sample = sampleFor(h)
+	return s
+}
+
+// ---------------------------------------------------------------------------
+// ordemotetwice: a term is ended by a failed ValidateTokenOrDemote; its OnDemote callback is
+// slow (1-3 s). Meanwhile the key becomes free, the same instance is elected again, that
+// record is replaced from outside too, and the application validates again while the first
+// term's OnDemote is still running: false, and the second term is demoted as well.
+// ---------------------------------------------------------------------------
+
+// OrDemoteTwiceTotal is the size of the enumeration.
+func OrDemoteTwiceTotal() int { return 2 * 2 * 2 }
+
+func genOrDemoteTwice(r rng, k int) *Spec {
+	idx := k % OrDemoteTwiceTotal()
+	h := []time.Duration{200 * ms, 500 * ms}[idx%2]
+	idx /= 2
+	slow := []time.Duration{1500 * ms, 3 * sec}[idx%2]
+	idx /= 2
+	second := []string{"forge", "getfault"}[idx%2]
+	s := &Spec{TTL: 3 * h, NoPreempt: true, Tags: []string{"hostile", "ordemotetwice"}}
+	s.Lat = Latency{Max: r.pickD(0, 2*ms)}
+	s.Insts = mkInsts(1, 1, h)
+	s.Insts[0].DemoteDelay = slow
+	s.Actions = append(s.Actions, Action{At: 10 * ms, Kind: "start", Inst: "i0"},
+		Action{At: 10*ms + 4*h, Kind: "output", Inst: "g0", Val: `{"id":"intruder","token":"x"}`},
+		Action{After: ms, Kind: "validate", Inst: "i0", Val: "bg", OrDemote: true},
+		Action{After: 50 * ms, Kind: "outdel", Inst: "g0"},
+		// re-election: watch event or periodic check, jitter, Create
+		Action{After: 900 * ms, Kind: "sample"})
+	if second == "forge" {
+		s.Actions = append(s.Actions, Action{After: ms, Kind: "output", Inst: "g0", Val: `{"id":"intruder","token":"y"}`})
+	} else {
+		s.Actions = append(s.Actions, Action{After: ms, Kind: "rule", Rule: &FaultRule{Client: "i0", Op: "Get", From: 10*ms + 4*h + 900*ms, Kind: "err", Err: "timeout"}})
+	}
+	s.Actions = append(s.Actions, Action{After: ms, Kind: "validate", Inst: "i0", Val: "bg", OrDemote: true},
+		Action{After: ms, Kind: "waitapi", Inst: "i0", D: 8 * sec})
+	s.Duration = slow + 4*h
+	s.Sample = sampleFor(h)
+	return s
+}
+
+// ---------------------------------------------------------------------------
+// stalediag: a refresh is refused (the record was replaced from outside); the heartbeat
+// loop's diagnostic read ("who holds it now?") is served and its answer held on its way.
+// Meanwhile the term ends another way (a failed ValidateTokenOrDemote), the key becomes free
+// and the same instance leads a new term. Then the old loop's read returns: whatever that
+// loop still does, it does to its own, ended term - the running term keeps its flag, its
+// callbacks and its promotion context.
+// ---------------------------------------------------------------------------
+
+// StaleDiagTotal is the size of the enumeration.
+func StaleDiagTotal() int { return 2 * 2 }
+
+func genStaleDiag(r rng, k int) *Spec {
+	idx := k % StaleDiagTotal()
+	h := []time.Duration{200 * ms, 500 * ms}[idx%2]
+	idx /= 2
+	late := []time.Duration{100 * ms, 2 * h}[idx%2]
+	s := &Spec{TTL: 5 * h, NoPreempt: true, Tags: []string{"hostile", "stalediag"}}
+	s.Lat = Latency{Max: r.pickD(0, 2*ms)}
+	s.Insts = mkInsts(1, 1, h)
+	s.Insts[0].BlockPromote = true
+	s.Breaks = []BreakSpec{{Name: "dg", Client: "i0", Op: "Get", Nth: 1, Phase: "resp"}}
+	t := 10*ms + 4*h + h/2
+	s.Actions = append(s.Actions, Action{At: 10 * ms, Kind: "start", Inst: "i0"},
+		Action{At: t, Kind: "arm", Break: "dg"},
+		Action{Chain: true, Kind: "output", Inst: "g0", Val: `{"id":"intruder","token":"x"}`},
+		// the next tick's refresh is refused; the loop reads the record: held
+		Action{After: ms, Kind: "waitbreak", Break: "dg", D: 3 * sec},
+		Action{After: ms, Kind: "validate", Inst: "i0", Val: "bg", OrDemote: true},
+		Action{After: 20 * ms, Kind: "outdel", Inst: "g0"},
+		Action{After: 900*ms + late, Kind: "release", Break: "dg"})
+	s.Duration = 6 * h
+	s.Sample = sampleFor(h)
+	return s
+}
+
+// ---------------------------------------------------------------------------
+// slowphases: StopWithContext{WaitForDemote, Timeout 1 s} of a leader whose OnPromote winds
+// down for 600 ms (the goroutine wait takes that long) and whose OnDemote takes 800 ms: the
+// phases share ONE budget - the call gives up after 1 s, not after 1.4 s.
+// ---------------------------------------------------------------------------
+
+// SlowPhasesTotal is the size of the enumeration.
+func SlowPhasesTotal() int { return 2 * 2 }
+
+func genSlowPhases(r rng, k int) *Spec {
+	idx := k % SlowPhasesTotal()
+	del := idx%2 == 0
+	idx /= 2
+	h := []time.Duration{500 * ms, 1 * sec}[idx%2]
+	s := &Spec{TTL: 5 * h, NoPreempt: true, Tags: []string{"lifecycle", "slowphases"}}
+	s.Lat = Latency{Max: r.pickD(0, 2*ms)}
+	s.Insts = mkInsts(1, 1, h)
+	s.Insts[0].BlockPromote = true
+	s.Insts[0].PromoteLinger = 600 * ms
+	s.Insts[0].DemoteDelay = 800 * ms
+	s.Actions = append(s.Actions, Action{At: 10 * ms, Kind: "start", Inst: "i0"},
+		Action{At: 2 * sec, Kind: "stop", Inst: "i0", Stop: &StopVariant{DeleteKey: del, Wait: true, Timeout: 1 * sec}},
+		Action{After: ms, Kind: "waitapi", Inst: "i0", D: 8 * sec})
+	s.Duration = 3 * sec
+	s.Sample = sampleFor(h)
+	return s
+}
+
+// ---------------------------------------------------------------------------
+// holddown: three priority levels inside one TTL, no faults. a (1) leads; b (2, takeover)
+// starts and preempts a; c (3, takeover) starts and preempts b; c leaves and releases the
+// key; a happens to win the free key (b's store is a little slower for one call). From then
+// on b sits next to the lower-priority leader a and has to preempt it within 3 H - that it
+// took the key over once already, a moment ago, changes nothing.
+// ---------------------------------------------------------------------------
+
+// HoldDownTotal is the size of the enumeration.
+func HoldDownTotal() int { return 2 * 2 }
+
+func genHoldDown(r rng, k int) *Spec {
+	idx := k % HoldDownTotal()
+	h := []time.Duration{200 * ms, 500 * ms}[idx%2]
+	idx /= 2
+	wait := idx%2 == 0
+	s := &Spec{TTL: 20 * h, Prompt: true, Tags: []string{"priority", "holddown"}}
+	s.Lat = Latency{Min: 0, Max: h / 20}
+	s.Watch = WatchPolicy{DelayMax: r.pickD(0, h/10)}
+	s.Insts = mkInsts(3, 1, h)
+	s.Insts[0].Priority = 1
+	s.Insts[1].Priority, s.Insts[1].Takeover = 2, true
+	s.Insts[2].Priority, s.Insts[2].Takeover = 3, true
+	t := 10*ms + 2*h
+	// b's Create calls fail for a moment around c's departure, so that a wins the free key
+	tc := t + 3*h + 2*h
+	s.Rules = append(s.Rules, FaultRule{Client: "i1", Op: "Create", From: tc, To: tc + 300*ms, Kind: "err", Err: "timeout"})
+	sv := &StopVariant{DeleteKey: true, Wait: wait, Timeout: 5 * sec}
+	s.Actions = append(s.Actions, Action{At: 10 * ms, Kind: "start", Inst: "i0"},
+		Action{At: t, Kind: "start", Inst: "i1"},
+		Action{At: t + 3*h, Kind: "start", Inst: "i2"},
+		Action{At: tc, Kind: "stop", Inst: "i2", Stop: sv})
+	s.PromptAfter = tc + 300*ms + h
+	s.Duration = 10 * h
+	s.Sample = sampleFor(h)
+	return s
+}
+
+// ---------------------------------------------------------------------------
+// busypromote: the application's OnPromote callback is busy and does not return when its
+// context ends (a slow warm-up: it goes on for 8 s). The record is replaced / deleted /
+// expires, or the refreshes fail: the leader stops reporting leadership AND runs its demotion
+// callback within the usual bounds - the demotion is not held back by the other callback.
+// ---------------------------------------------------------------------------
+
+// BusyPromoteTotal is the size of the enumeration.
+func BusyPromoteTotal() int { return 4 * 2 }
+
+func genBusyPromote(r rng, k int) *Spec {
+	idx := k % BusyPromoteTotal()
+	kind := []string{"replaced", "deleted", "expired", "err-timeout"}[idx%4]
+	idx /= 4
+	h := []time.Duration{200 * ms, 1 * sec}[idx%2]
+	s := &Spec{TTL: 5 * h, NoPreempt: true, Tags: []string{"c03", kind, "busypromote"}}
+	s.Lat = Latency{Max: r.pickD(0, 3*ms)}
+	s.Insts = mkInsts(1, 1, h)
+	s.Insts[0].BlockPromote = true
+	s.Insts[0].PromoteLinger = 8 * sec
+	t0 := 10 * ms
+	s.Actions = append(s.Actions, Action{At: t0, Kind: "start", Inst: "i0"})
+	at := t0 + 3*h + h/3
+	switch kind {
+	case "replaced":
+		s.Actions = append(s.Actions, Action{At: at, Kind: "output", Inst: "g0", Val: `{"id":"intruder","token":"tok-b"}`})
+	case "deleted":
+		s.Actions = append(s.Actions, Action{At: at, Kind: "outdel", Inst: "g0"})
+	case "expired":
+		s.Actions = append(s.Actions, Action{At: at, Kind: "outexpire", Inst: "g0"})
+	default:
+		s.Rules = append(s.Rules, FaultRule{Client: "i0", Op: "Update", FromOrd: 4, Kind: "err", Err: "timeout"})
+	}
+	s.Duration = 8*h + 10*sec
 	s.Sample = sampleFor(h)
 	return s
 }
